@@ -285,7 +285,7 @@ type manyCase struct {
 
 func TestManyCalls(t *testing.T) {
 	h.Run(t, h.Sub[manyCase]{
-		Prop: "C13", Name: "many-successful-calls", N: 8,
+		Prop: "C13", Name: "many-successful-calls", N: 8, MaxN: 400,
 		Gen: func(t *rapid.T) manyCase {
 			return manyCase{Version: rapid.IntRange(1, 2).Draw(t, "version"), Workers: h.OneOf(t, "workers", 1, 4, 8), Calls: h.OneOf(t, "calls", 300, 400, 600), Target: h.OneOf(t, "target", "every-lane", "easy")}
 		},
